@@ -23,6 +23,8 @@ CG = "hta.common.trace_call_graph"
 
 
 def run(db, chk) -> None:
+    from ..specs.discipline import check_facade_stateless
+    check_facade_stateless(db, chk, "C16.R-facade-stateless", ['get_frequent_cuda_kernel_sequences'])
     from ..specs.discipline import check_stateless
     check_stateless(db, chk, "C16.R-stateless", ['hta.analyzers.cuda_kernel_analysis'])      # the result is a function of the arguments: no state kept between calls, caller's Trace untouched
     chk.floor("C16.R-stateless", 4)
@@ -34,6 +36,8 @@ def run(db, chk) -> None:
     from .c13 import check_publish_order
     check_publish_order(db, chk, "C16.R5-stack-columns-final")      # the columns the analysis selects operators by are the linked tree's
     chk.floor("C16.R5-stack-columns-final", 2)
+    from .c13 import _kernel_info, CS as _CS13
+    _kernel_info(db, chk, db.mod(_CS13), rule="C16.R6-kernel-totals")      # num_kernels / kernel_dur_sum, the columns roots are selected and durations summed by
 
 
 def _tree_dependency(db, chk):
@@ -149,7 +153,14 @@ def _results(db, chk, m):
         by = kw.get("by")
         asc = kw.get("ascending")
         if isinstance(by, list) and by[:1] == ["count"] and (asc is False or (isinstance(asc, list) and asc[:1] == [False])):
-            ok = True
+            # ... on every path: the sort is not under a condition
+            cur, conds = m.parent.get(id(c)), []
+            while cur is not None and cur is not f:
+                if isinstance(cur, (ast.If, ast.IfExp, ast.While, ast.For, ast.Try)):
+                    conds.append(type(cur).__name__ + (" " + ast.unparse(cur.test)[:60] if hasattr(cur, "test") else ""))
+                cur = m.parent.get(id(cur))
+            det[-1] = dict(kw, conditional_on=conds) if conds else kw
+            ok = not conds
     chk.ob("C16.R2-result-order", "result rows are ordered by count, descending", ok, m.loc(f), found=det, accepted="sort_values(by=['count', ...], ascending=[False, ...])")
     okc = False
     for lp in [n for n in ast.walk(f) if isinstance(n, ast.For) and H.match("pattern_counts.items()", n.iter) is not None and isinstance(n.target, ast.Tuple) and len(n.target.elts) == 2]:
